@@ -609,9 +609,11 @@ def gen_secret(rng):
     r = rng.random()
     if r < 0.05:
         return b""
-    if r < 0.7:
-        return bytes(rng.randrange(256) for _ in range(rng.choice([1, 16, 20, 32, 64])))
-    return bytes(rng.randrange(256) for _ in range(rng.choice([63, 65, 127, 128, 129, 200])))
+    if r < 0.8:
+        return bytes(rng.randrange(256) for _ in range(rng.choice([1, 8, 16, 20, 32])))
+    if r < 0.95:
+        return bytes(rng.randrange(256) for _ in range(rng.choice([48, 63, 64])))
+    return bytes(rng.randrange(256) for _ in range(rng.choice([65, 127, 128, 129, 200])))
 
 
 def gen_alg(rng, weird=0.05):
@@ -1120,7 +1122,7 @@ def gen_read_case(rng, kind=None):
 def gen_stream(rng, n=None):
     """a multi-message exchange: envelopes with any subset of the intermediate ones unsigned.
     -> (list of (wire, signed?), key, rmac, times, fudge)"""
-    n = n or rng.choice([1, 2, 3, 3, 4, 5, 6])
+    n = n or rng.choice([1, 2, 3, 3, 4, 5])
     k = gen_key(rng, 0)
     rmac = b"" if rng.random() < 0.2 else gen_mac(rng)
     base = gen_time(rng) % (2 ** 48 - 1000)
@@ -1211,21 +1213,21 @@ def gen_keyring_case(rng):
 def cases(ctx):
     rng = ctx.rng
     yield "tables", [0]
-    for _ in range(ctx.n(40, 300)):
+    for _ in range(ctx.n(30, 300)):
         yield "keyring", gen_keyring_case(rng)
-    for _ in range(ctx.n(160, 2500)):
+    for _ in range(ctx.n(110, 2500)):
         yield "sign", gen_sign_case(rng)
-    for _ in range(ctx.n(380, 4000)):
+    for _ in range(ctx.n(280, 4000)):
         yield gen_validate_case(rng)
-    for _ in range(ctx.n(100, 1000)):
+    for _ in range(ctx.n(80, 1000)):
         yield "rdata-to-wire", [3, gen_rdata_fields(rng)]
         yield "rdata-from-wire", gen_rdata_wire_case(rng)
-    for _ in range(ctx.n(90, 1200)):
+    for _ in range(ctx.n(60, 1200)):
         yield "sign-message", gen_signmsg_case(rng)
-    for _ in range(ctx.n(380, 4000)):
+    for _ in range(ctx.n(280, 4000)):
         kind, c = gen_read_case(rng)
         yield "read:" + kind, c
-    for _ in range(ctx.n(40, 600)):
+    for _ in range(ctx.n(24, 600)):
         yield from gen_stream_cases(rng)
 
 
